@@ -161,9 +161,23 @@ let eval (prop : string) (input : Sx.t) (obs : Sx.t) : Sx.t list * bool * bool *
   let outs_model = List.mapi (fun i op ->
     let o = (try List.nth outs_obs i with _ -> Sx.A "missing") in
     match Sx.tag op, Sx.args op with
+    | "reg", [ms; Sx.L [Sx.A "text"; txt]] when
+        (* a raw route text: outside the grammar it is refused; one that spells a regex is left to the AST stream *)
+        (match Parser.parse (str txt) with
+         | None -> true
+         | Some r -> List.exists (fun sg -> List.exists (function EParams ps -> List.exists (fun (_, v) -> match v with VRegex _ -> true | _ -> false) ps | _ -> false) sg.elems) r) ->
+        h.attempt <- h.attempt + 1;
+        (match Parser.parse (str txt) with
+         | None ->
+             if prop = "C08" then begin
+               if o = Sx.L [Sx.A "ok"] then fail (Printf.sprintf "registration of %s accepted although the text is outside the grammar" (Sx.show txt));
+               incr nrej; nontrivial := true
+             end;
+             Sx.L [Sx.A "rej"]
+         | Some _ -> o)
     | "reg", [ms; r] ->
         let at = h.attempt in h.attempt <- at + 1;
-        let r = route_of r in
+        let r = (match r with Sx.L [Sx.A "text"; txt] -> (match Parser.parse (str txt) with Some r -> r | None -> failwith "text") | _ -> route_of r) in
         let ms = methods_of_spec ms in
         (* C08: accept iff valid for every method concerned (and the method is known) *)
         let declared_valid = ms <> [] && List.for_all (fun m -> RouteSpec.valid compile (routes_for h (int_of_nat m)) r) ms in
@@ -194,7 +208,7 @@ let eval (prop : string) (input : Sx.t) (obs : Sx.t) : Sx.t list * bool * bool *
                let (_, _, _, r) = List.find (fun (_, x, _, _) -> x = rid) h.accepted in
                h.named <- (nm, r) :: h.named; Sx.L [Sx.A "ok"]
              end)
-    | "url", [nm; pairs] ->
+    | "url", (nm :: pairs :: _) ->      (* an optional (ctx): built through a request's Context, the same result *)
         (match List.assoc_opt (ocaml_string_of_str (str nm)) h.named with
          | None -> Sx.L [Sx.A "panic"]
          | Some r ->
